@@ -659,6 +659,11 @@ def _prim_atom(name, label, t, env, W):
             if name == "wrapping_shl" and len(args) == 2 and isinstance(args[1], PI):
                 return _wrap_prim(ty, x << (args[1].v % b))
         return None
+    if re.match(r"^core::option::Option(::)?<T>::unwrap_unchecked(::<.*>)?$", label) and len(t[2]) == 1:
+        o = ev(t[2][0], env, W)
+        if isinstance(o, tuple) and o and o[0] == "Some":
+            return o[1]
+        return OPAQUE          # None: undefined behaviour, unconstrained
     if re.match(r"^core::option::Option(::)?<T>::unwrap_or(::<.*>)?$", label) and len(t[2]) == 2:
         o = ev(t[2][0], env, W)
         if isinstance(o, tuple) and o and o[0] == "Some":
